@@ -10,13 +10,13 @@ ALL = [f"C{n:02d}" for n in range(1, 21)]
 CHECKS = {
     "C01": {
         "technique": "property-based testing: exhaustive index sweep inside generated datasets vs a divmod reference model; finite enumeration of all shapes",
-        "text": "Hypothesis generates datasets of every convention (non-square, 1xN, Nx1, holes, meshes with and without an edge dimension); inside each, every linear index in [-3, N+3) and every native index in the box [-1..n_d] of every grid kind is converted both ways and compared with an independent row-major model, and out-of-range indexes must raise. All structured shapes up to 5x5 and strip meshes up to 12 faces are enumerated completely. Exploration, not proof: shapes are bounded (<= 6 per axis). Sub-check large_grids: CF 1-D grids of up to 300000 x 300000 cells (only the two axes exist) probed around 2**31, 2**32, the ends and at random against Python's exact integers.",
+        "text": "Hypothesis generates datasets of every convention (non-square, 1xN, Nx1, holes, meshes with and without an edge dimension); inside each, every linear index in [-3, N+3) and every native index in the box [-1..n_d] of every grid kind is converted both ways and compared with an independent row-major model, and out-of-range indexes must raise. All structured shapes up to 5x5 and strip meshes up to 12 faces are enumerated completely. Exploration, not proof: shapes are bounded (<= 6 per axis). Sub-check large_grids: CF 1-D grids of up to 300000 x 300000 cells (only the two axes exist) probed around 2**31, 2**32, the ends and at random against Python's exact integers. CF units in all six spellings, longitude stored before latitude, coordinate_names in any key order.",
         "note": "Trusts numpy for nothing: the oracle is divmod arithmetic on the spec. Assumes generated datasets are valid instances of their convention.",
         "design": "5/C01",
     },
     "C02": {
         "technique": "property-based testing: injective data codes decoded against the spec; polygons/centres vs reference cells; STRtree hits vs brute-force scan",
-        "text": "Generated datasets of every convention (non-square, skewed, holes before valid cells, bow-tie mesh faces, variables with grid dimensions in any position, CF-decoded or raw). For every variable and every position n, element n of the flattened variable and the value selected through selector_for_index(wind_index(n)) are both compared with the value the spec stores at the reference native index; polygons, mask and face centres at n are compared with the reference geometry of that cell; spatial-index hits are compared with a brute-force scan. Exploration over bounded sizes (<= 36 cells). Grid dimensions may carry integer dimension coordinates whose labels are not the positions, stored 2-D bounds may have a layout that must be refused, and the documented select_index route is compared as well. Datasets are also held as dask chunks or as a lazily opened netCDF file, geometry may be single precision.",
+        "text": "Generated datasets of every convention (non-square, skewed, holes before valid cells, bow-tie mesh faces, variables with grid dimensions in any position, CF-decoded or raw). For every variable and every position n, element n of the flattened variable and the value selected through selector_for_index(wind_index(n)) are both compared with the value the spec stores at the reference native index; polygons, mask and face centres at n are compared with the reference geometry of that cell; spatial-index hits are compared with a brute-force scan. Exploration over bounded sizes (<= 36 cells). Grid dimensions may carry integer dimension coordinates whose labels are not the positions, stored 2-D bounds may have a layout that must be refused, and the documented select_index route is compared as well. Datasets are also held as dask chunks or as a lazily opened netCDF file, geometry may be single precision. Column-major coordinate / data arrays, transposed cell-centre longitude on C grids.",
         "note": "Assumes valid datasets. For 2-D CF grids without stored bounds only hole/centre consistency is asserted for polygons.",
         "design": "5/C02",
     },
@@ -28,19 +28,19 @@ CHECKS = {
     },
     "C04": {
         "technique": "property-based testing: exact rational point-in-polygon oracle + brute-force scan, points derived from the case geometry",
-        "text": "For generated datasets (holes, skewed cells, concave / self-intersecting / overlapping mesh faces, > 10 cells so the STRtree has several leaves) 12-40 points per case at vertices, edge midpoints, interiors, hole interiors, a hair outside the hull and far away are looked up; the hit set comes from exact Fraction arithmetic on the spec's corners (cross-checked against polygon.intersects over all polygons) and the lookup must return its minimum, with matching native index and polygon, None on a miss, never a hole; select_point must raise exactly on misses and equal select_index otherwise. A history option converts indexes on every other grid kind first (meshes with as many nodes as faces are generated on purpose).",
+        "text": "For generated datasets (holes, skewed cells, concave / self-intersecting / overlapping mesh faces, > 10 cells so the STRtree has several leaves) 12-40 points per case at vertices, edge midpoints, interiors, hole interiors, a hair outside the hull and far away are looked up; the hit set comes from exact Fraction arithmetic on the spec's corners (cross-checked against polygon.intersects over all polygons) and the lookup must return its minimum, with matching native index and polygon, None on a miss, never a hole; select_point must raise exactly on misses and equal select_index otherwise. A history option converts indexes on every other grid kind first (meshes with as many nodes as faces are generated on purpose). Dimensions named index / point that only a coordinate uses.",
         "note": "Coordinates are dyadic so exact arithmetic on the float values is ground truth. select_point vs select_index compared only when a face variable exists.",
         "design": "5/C04",
     },
     "C05": {
         "technique": "property-based testing: selected values decoded against the spec; hit/miss classification from the exact containment oracle",
-        "text": "Index lists with repeats in any order on every grid kind, custom dimension names, single-index selection; point lists mixing interior hits, boundary hits and misses under error/drop/fill through select_points and extract_dataframe with extra columns. Every value of every returned variable is compared with the spec's stored value for the requested cell in request order; variable set, geometry removal, miss reporting, row labels, fill rows and data-frame columns are all checked. Variables include per-cell time stamps (datetime64, NaT), grid dimensions may carry non-positional dimension coordinates. A sub-check selects by edge index on meshes whose edge grid exists without an edge-node table.",
+        "text": "Index lists with repeats in any order on every grid kind, custom dimension names, single-index selection; point lists mixing interior hits, boundary hits and misses under error/drop/fill through select_points and extract_dataframe with extra columns. Every value of every returned variable is compared with the spec's stored value for the requested cell in request order; variable set, geometry removal, miss reporting, row labels, fill rows and data-frame columns are all checked. Variables include per-cell time stamps (datetime64, NaT), grid dimensions may carry non-positional dimension coordinates. A sub-check selects by edge index on meshes whose edge grid exists without an edge-node table. A history clause replaces, adds and deletes variables in place between two selections on one dataset object.",
         "note": "Assumes at least one hit for drop/fill and at least one variable on the selected grid; custom dimension names do not collide with dataset dimensions.",
         "design": "5/C05",
     },
     "C06": {
         "technique": "property-based testing: exact comparison of polygon rings with reference cells computed from the spec; warnings inspected; bounds exact, geometry vs union",
-        "text": "All coordinate classes per convention (ascending/descending/non-uniform axes, bounds absent/contiguous off-midpoint/with gaps and in either row order, skewed 2-D grids with and without bounds, holes, twisted cells, node grids with masked regions, meshes 0/1-based with NaN/integer fill, transposed tables, bow-tie faces, coordinates as coordinates or plain variables; raw, CF-decoded and through netCDF). Each polygon ring must equal the reference corner sequence exactly, missing/invalid cells must be None with mask False and an InvalidPolygonWarning naming them, the array read-only, bounds exact and geometry equal to the union of the cells. After the reads every dataset variable must be bit-identical to what it was and a second convention object on the same dataset must report the same polygons. Cells may overlap (1-D bounds, mesh faces): the geometry must be a valid shape equal to their union.",
+        "text": "All coordinate classes per convention (ascending/descending/non-uniform axes, bounds absent/contiguous off-midpoint/with gaps and in either row order, skewed 2-D grids with and without bounds, holes, twisted cells, node grids with masked regions, meshes 0/1-based with NaN/integer fill, transposed tables, bow-tie faces, coordinates as coordinates or plain variables; raw, CF-decoded and through netCDF). Each polygon ring must equal the reference corner sequence exactly, missing/invalid cells must be None with mask False and an InvalidPolygonWarning naming them, the array read-only, bounds exact and geometry equal to the union of the cells. After the reads every dataset variable must be bit-identical to what it was and a second convention object on the same dataset must report the same polygons. Cells may overlap (1-D bounds, mesh faces): the geometry must be a valid shape equal to their union. Unsigned connectivity tables, column-major geometry arrays.",
         "note": "2-D CF grids without stored bounds: validity only (the statements define no construction). Bounds/geometry asserted only when no invalid cells or stray mesh nodes exist.",
         "design": "5/C06",
     },
@@ -52,7 +52,7 @@ CHECKS = {
     },
     "C08": {
         "technique": "property-based testing: every value of the clipped dataset compared with a reference computed from the spec and a reference selection; three application routes incl. saved-and-reloaded mask applied to a second dataset",
-        "text": "For generated datasets of every convention with float / int-without-fill / int-with-_FillValue / int-with-missing_value variables on every grid kind (and none), spatial dimensions in any position, raw / CF-decoded / from netCDF, meshes with any subset of optional tables and coordinates as variables or xarray coordinates: the result of clip / make+apply / saved mask applied to a second dataset with different data is loaded fully and every element is compared with the expectation (selected -> original value, unselected -> missing where representable else original, crop window = bounding window of the reference mask, mesh rows = kept elements in order), plus non-spatial variables and attributes. Routes include applying the same mask object twice; the caller's mask dataset must be bit-identical afterwards.",
+        "text": "For generated datasets of every convention with float / int-without-fill / int-with-_FillValue / int-with-missing_value variables on every grid kind (and none), spatial dimensions in any position, raw / CF-decoded / from netCDF, meshes with any subset of optional tables and coordinates as variables or xarray coordinates: the result of clip / make+apply / saved mask applied to a second dataset with different data is loaded fully and every element is compared with the expectation (selected -> original value, unselected -> missing where representable else original, crop window = bounding window of the reference mask, mesh rows = kept elements in order), plus non-spatial variables and attributes. Routes include applying the same mask object twice; the caller's mask dataset must be bit-identical afterwards. Routes include clipping the same dataset object twice with another buffer first.",
         "note": "Reference selection comes from the C07 oracles, not from emsarray's mask. Lazily loaded results are evaluated with a single-threaded dask scheduler (emsarray opens them with lock=False).",
         "design": "5/C08",
     },
@@ -70,13 +70,13 @@ CHECKS = {
     },
     "C11": {
         "technique": "property-based testing: table-driven restatement of the detection rules as oracle; generated registration orders in a fresh registry; model-based operation sequences (histories) over live datasets",
-        "text": "Datasets of every convention and 13 kinds of near-miss are detected and compared with an independent restatement of the documented rules (also repeatability, deep copies, activity on another registry); 0-4 synthetic conventions with drawn specificities (ties with each other and the built-ins, duplicates) are registered one at a time in a fresh registry with detection asked after every registration; operation sequences of up to 30 steps from {access, construct+bind, bind again, shallow/deep copy, detect} over up to 6 live datasets are run against a model, with the invariant after every step that each bound dataset still returns the identical convention object, unbound copies stay unbound, and a second bind raises. Built-in classes are also registered by hand, interleaved with synthetic ones. The UGRID marker is spelled alone or next to CF, separated by blank, comma or slash.",
+        "text": "Datasets of every convention and 13 kinds of near-miss are detected and compared with an independent restatement of the documented rules (also repeatability, deep copies, activity on another registry); 0-4 synthetic conventions with drawn specificities (ties with each other and the built-ins, duplicates) are registered one at a time in a fresh registry with detection asked after every registration; operation sequences of up to 30 steps from {access, construct+bind, bind again, shallow/deep copy, detect} over up to 6 live datasets are run against a model, with the invariant after every step that each bound dataset still returns the identical convention object, unbound copies stay unbound, and a second bind raises. Built-in classes are also registered by hand, interleaved with synthetic ones. The UGRID marker is spelled alone or next to CF, separated by blank, comma or slash. Near misses include rotated-pole index coordinates and a single SHOC dimension name.",
         "note": "Generic ArakawaC never auto-detects (documented). Built-ins do not tie with each other on generated datasets.",
         "design": "5/C11",
     },
     "C12": {
         "technique": "property-based testing: per-element comparison with a physical-depth reference model computed from the spec",
-        "text": "Datasets of every convention with 1-2 depth coordinates on different dimensions (positive up/down, stored in either order), a generated static sea floor giving columns 0..all wet layers per (depth coordinate, grid kind), 2-4 float variables with the depth dimension in any position on any grid kind with optional time and nuisance dimensions, through operations.depth.ocean_floor and dataset.ems.ocean_floor(). Every element of every reduced variable must equal the spec's value at the wet level of greatest physical depth (NaN for all-dry columns); depth dimension and coordinates must be gone; other variables, time, geometry variables and polygons must be unchanged. Depth coordinates may lack the positive attribute (one-sided values, documented guess), names may be handed over as any iterable, data may be dask-backed or lazily read from a file.",
+        "text": "Datasets of every convention with 1-2 depth coordinates on different dimensions (positive up/down, stored in either order), a generated static sea floor giving columns 0..all wet layers per (depth coordinate, grid kind), 2-4 float variables with the depth dimension in any position on any grid kind with optional time and nuisance dimensions, through operations.depth.ocean_floor and dataset.ems.ocean_floor(). Every element of every reduced variable must equal the spec's value at the wet level of greatest physical depth (NaN for all-dry columns); depth dimension and coordinates must be gone; other variables, time, geometry variables and polygons must be unchanged. Depth coordinates may lack the positive attribute (one-sided values, documented guess), names may be handed over as any iterable, data may be dask-backed or lazily read from a file. A plain layer-number coordinate on the depth dimension must be gone afterwards.",
         "note": "Static-floor assumption as documented by ocean_floor; the order of the remaining dimensions is not asserted; accessor route only with a time coordinate.",
         "design": "5/C12",
     },
@@ -88,25 +88,25 @@ CHECKS = {
     },
     "C14": {
         "technique": "property-based testing with a validity-predicate oracle (many triangulations are correct): counts, own vertices, containment, area sum and union area per cell",
-        "text": "Datasets of every convention with holes, plus meshes built to contain convex faces, concave polyomino faces with exactly collinear vertices (unjittered lattice), star-shaped concave faces with 4-8 vertices at random radii, 5- and 7-gons, bow-tie faces, clockwise and anticlockwise winding and every ring rotation. For every cell: exactly n-2 triangles (n = distinct consecutive corners), every triangle vertex is a vertex of that cell, every triangle lies inside the cell, areas sum to the cell's area and the union has the cell's area (no overlap, no gap); no triangles for cells without geometry; all indexes valid; no duplicate vertex rows. Every case triangulates twice with the first result's arrays overwritten in between; sub-check sparse_large_grids covers grids of 169-624 cells with geometry only in a small window. Further sub-checks: shared corners stored as 0.0 and -0.0, cell sides down to 1e-6.",
+        "text": "Datasets of every convention with holes, plus meshes built to contain convex faces, concave polyomino faces with exactly collinear vertices (unjittered lattice), star-shaped concave faces with 4-8 vertices at random radii, 5- and 7-gons, bow-tie faces, clockwise and anticlockwise winding and every ring rotation. For every cell: exactly n-2 triangles (n = distinct consecutive corners), every triangle vertex is a vertex of that cell, every triangle lies inside the cell, areas sum to the cell's area and the union has the cell's area (no overlap, no gap); no triangles for cells without geometry; all indexes valid; no duplicate vertex rows. Every case triangulates twice with the first result's arrays overwritten in between; sub-check sparse_large_grids covers grids of 169-624 cells with geometry only in a small window. Further sub-checks: shared corners stored as 0.0 and -0.0, cell sides down to 1e-6. Seams (coincident nodes) and thin polygons with one deep notch.",
         "note": "Relative area tolerance 1e-9. A corner listed twice in a row counts once.",
         "design": "5/C14",
     },
     "C15": {
         "technique": "property-based testing: round trip through independent readers (json, pyshp Reader, shapely.from_wkt/from_wkb) with exact coordinate comparison",
-        "text": "Datasets of every convention (holes anywhere incl. the first cell, bow-tie faces, native indexes with and without grid kind, coordinates with up to 10 binary decimals) are exported as GeoJSON, Shapefile, WKT and WKB through operations.geometry.write_*; the files are read back with independent readers; the k-th geometry must be the polygon of the k-th cell with geometry with identical coordinates, and GeoJSON properties / shapefile records must carry the linear index and a native index that ravel_index maps back to that cell. Further sub-checks move the coordinates east of 180 and beyond +-90 (polar rows, projected coordinates).",
+        "text": "Datasets of every convention (holes anywhere incl. the first cell, bow-tie faces, native indexes with and without grid kind, coordinates with up to 10 binary decimals) are exported as GeoJSON, Shapefile, WKT and WKB through operations.geometry.write_*; the files are read back with independent readers; the k-th geometry must be the polygon of the k-th cell with geometry with identical coordinates, and GeoJSON properties / shapefile records must carry the linear index and a native index that ravel_index maps back to that cell. Further sub-checks move the coordinates east of 180 and beyond +-90 (polar rows, projected coordinates). A sub-check exports grids of 768-1536 cells with bands of missing cells.",
         "note": "Rings compared up to start vertex and direction. Coordinates compared exactly.",
         "design": "5/C15",
     },
     "C16": {
         "technique": "property-based testing with metamorphic relations (invariance / sensitivity under single edits derived from one dataset), fresh-interpreter differential over hash seeds, known-finding matcher",
-        "text": "All variants are derived from one built dataset so attribute objects are shared: 7 kinds of non-geometry edit must leave the key unchanged, single geometry edits (one value, dtype with equal values, dtype with identical bytes, shape with identical bytes, consistent rename, attribute add/change/remove, convention class differing only in name or only in module) must change it; the same netCDF files opened in fresh interpreters with PYTHONHASHSEED 0, 1 and random must give the parent's keys; equal attribute dicts rebuilt from fresh string objects must give the same key (fails: listed known finding, matched exactly). A history clause edits a geometry value and attribute in place on one dataset object between two key computations. Attribute edits include names starting with an underscore; datasets are also CF-decoded, dask-backed or lazily opened.",
+        "text": "All variants are derived from one built dataset so attribute objects are shared: 7 kinds of non-geometry edit must leave the key unchanged, single geometry edits (one value, dtype with equal values, dtype with identical bytes, shape with identical bytes, consistent rename, attribute add/change/remove, convention class differing only in name or only in module) must change it; the same netCDF files opened in fresh interpreters with PYTHONHASHSEED 0, 1 and random must give the parent's keys; equal attribute dicts rebuilt from fresh string objects must give the same key (fails: listed known finding, matched exactly). A history clause edits a geometry value and attribute in place on one dataset object between two key computations. Attribute edits include names starting with an underscore; datasets are also CF-decoded, dask-backed or lazily opened. Names differing only in unicode normal form; mesh attributes naming absent tables.",
         "note": "Known finding KF-cache-key-attribute-identity (marshal of attributes depends on object identity / reference counts) is reported as KNOWN-FINDING and excluded from the search by a matcher that re-derives it; process independence is explored on this machine and Python version only.",
         "design": "5/C16",
     },
     "C17": {
         "technique": "property-based testing: reference instant computed from generated components + independent regex parser of the EMS form; exhaustive offset x spelling x period grid; netCDF round trip inspected with xarray and netCDF4",
-        "text": "format_time_units_for_ems on generated unit strings (4 periods, epochs 1700-2200 at any time of day, offsets on every quarter hour from -12:00 to +14:00 plus Z and none, 'T' or space, with or without seconds, +HH:MM / +HHMM / +HH, optional space, 4 calendars) must return the EMS form denoting the same instant (also according to cftime) - an exception is a violation; the full offsets x spellings x periods grid is enumerated. Datasets of every convention with such time units and integer or fractional steps are saved through ems.to_netcdf / to_netcdf_with_fixes and reopened: same convention, identical polygons, values and time instants, EMS-form units in the file, no new _FillValue attributes. One class re-times the decoded series by a fraction of its unit while it keeps an integer encoding, so that the writer must choose a finer unit. Sources are also held undecoded as on disk (compared through the decoding that reopening applies), with a sub-check for in-memory meshes with integer tables.",
+        "text": "format_time_units_for_ems on generated unit strings (4 periods, epochs 1700-2200 at any time of day, offsets on every quarter hour from -12:00 to +14:00 plus Z and none, 'T' or space, with or without seconds, +HH:MM / +HHMM / +HH, optional space, 4 calendars) must return the EMS form denoting the same instant (also according to cftime) - an exception is a violation; the full offsets x spellings x periods grid is enumerated. Datasets of every convention with such time units and integer or fractional steps are saved through ems.to_netcdf / to_netcdf_with_fixes and reopened: same convention, identical polygons, values and time instants, EMS-form units in the file, no new _FillValue attributes. One class re-times the decoded series by a fraction of its unit while it keeps an integer encoding, so that the writer must choose a finer unit. Sources are also held undecoded as on disk (compared through the decoding that reopening applies), with a sub-check for in-memory meshes with integer tables. Epochs from the year 1000 in the formatting sub-check.",
         "note": "Input offsets use two-digit hours, Z or nothing (cftime ignores one-digit-hour offsets).",
         "design": "5/C17",
     },
@@ -118,13 +118,13 @@ CHECKS = {
     },
     "C19": {
         "technique": "property-based testing: artist internals (paths, array, clim, stored transform, quiver X/Y/U/V/Umask) compared with the spec",
-        "text": "Datasets of every convention with holes before valid cells, bow-tie faces and meshes mixing 3-8 sided faces; face variables with grid dimensions in any order, missing values, optional extra dimension; scalar by name, as DataArray or absent; array= / clim= / transform= / extra keyword overrides; vector pairs. Patch k must trace the k-th cell with geometry exactly and carry its stored value, default clim must span exactly the plotted values, overrides must be honoured, arrows must sit at face_centres[n] with the stored (u, v) (hidden iff a component is missing), and data+array=, leftover dimensions or mismatched vector dimensions must be refused. Axes may be stored as float32 / int32 where exact; arrow positions are compared with the centres the dataset stores; derived arrays carrying a variable's name must be plotted with their own values.",
+        "text": "Datasets of every convention with holes before valid cells, bow-tie faces and meshes mixing 3-8 sided faces; face variables with grid dimensions in any order, missing values, optional extra dimension; scalar by name, as DataArray or absent; array= / clim= / transform= / extra keyword overrides; vector pairs. Patch k must trace the k-th cell with geometry exactly and carry its stored value, default clim must span exactly the plotted values, overrides must be honoured, arrows must sit at face_centres[n] with the stored (u, v) (hidden iff a component is missing), and data+array=, leftover dimensions or mismatched vector dimensions must be refused. Axes may be stored as float32 / int32 where exact; arrow positions are compared with the centres the dataset stores; derived arrays carrying a variable's name must be plotted with their own values. Self-crossing cells after holes; the set of cells with geometry comes from the reference cells.",
         "note": "Artists are inspected without drawing; Agg backend.",
         "design": "5/C19",
     },
     "C20": {
         "technique": "property-based testing: independent hand-written parser of the bounds grammar as oracle incl. near-miss strings; differential comparison of CLI output files with library results; failure-path invariants; subprocess sample",
-        "text": "bounds_argument / geometry_argument on grammar-generated strings (minus, 1 / 1. / .5 / 1.5, underscores, spaces around commas, Unicode digits) and 21 kinds of near-miss must accept exactly what an independent split-and-recognise parser accepts, with the same four numbers; GeoJSON strings and files valid and invalid. clip (bounds, GeoJSON string, GeoJSON file), extract-points (hits and misses x error/drop/fill/default x custom columns and dimension) and export-geometry (explicit or guessed format) run in process on datasets of every auto-detectable convention and are compared with the files the library calls produce (xarray identical + raw units; byte equality for exports); failures must exit non-zero with a message and leave no output file; a sample runs as python -m emsarray. An explicit export format is combined with neutral, missing and contradicting extensions. Point tables may repeat a row.",
+        "text": "bounds_argument / geometry_argument on grammar-generated strings (minus, 1 / 1. / .5 / 1.5, underscores, spaces around commas, Unicode digits) and 21 kinds of near-miss must accept exactly what an independent split-and-recognise parser accepts, with the same four numbers; GeoJSON strings and files valid and invalid. clip (bounds, GeoJSON string, GeoJSON file), extract-points (hits and misses x error/drop/fill/default x custom columns and dimension) and export-geometry (explicit or guessed format) run in process on datasets of every auto-detectable convention and are compared with the files the library calls produce (xarray identical + raw units; byte equality for exports); failures must exit non-zero with a message and leave no output file; a sample runs as python -m emsarray. An explicit export format is combined with neutral, missing and contradicting extensions. Point tables may repeat a row. A clip file name reused with new content in the same process; output names with further dots.",
         "note": "Whitespace before the first / after the last number is not asserted either way.",
         "design": "5/C20",
     },
